@@ -38,7 +38,10 @@ LEVEL_NOTE = ("Refinement layer (Signac/Properties/Refinement.lean, audited with
               "the file-system step program of init / re-key / move / clone / remove / clear ends in a clean world whose "
               "abstraction is the abstract operation's result (op_refines, history_refines by induction over histories), and "
               "commutes with the step of the abstract workspace model of C03/C04 (init_square ... clear_square): the crash/fault "
-              "model of C11 and the in-memory model of C03/C04 describe the same operations. "
+              "model of C11 and the in-memory model of C03/C04 describe the same operations. Collisions at the step level: re-key / move / clone onto an initialised destination end "
+              "in DestinationExistsError with the world EXACTLY as before (rekey_collision_no_damage: park, failed rename, rollback); "
+              "a single fault in the parking step or the rename also restores the world exactly, a fault in the rollback leaves the "
+              "state point parked as backup, which check() reports (rekey_collision_single_fault). "
               "Trusted: Lean kernel + 3 standard axioms; the correspondence harness and the plain reference model "
               "(harness/ws_common.py). The model works at the level of whole operations (no file-system steps: C11). "
               "Known findings carved out exactly: F-4b (type-only / None whole-assignment ignored by the dependency), "
@@ -162,7 +165,7 @@ def link_scenario(rng, rich):
 
 
 def generate(tier, rng):
-    n = 4000 if tier == "quick" else 40000
+    n = 9000 if tier == "quick" else 40000
     for i in range(20 if tier == "quick" else 200):
         yield {"ops": link_scenario(rng, rich=(i % 3 == 0)), "nproj": 2, "views": True}
     for i in range(n):
